@@ -217,6 +217,10 @@ def check(rep, tier, seed, driver):
     py2v_arch.report(rep)
     py2v_thr.report(rep)
     rng = random.Random(seed)
+    _dd = au.dict_dtype_stream(rep, random.Random(seed + 77), 40 if tier == "quick" else 400, "threshold")
+    if _dd:
+        rep.violation("dict-dtype archive: " + _dd[0], {"kind": "property", "broken": "C05 under the dict form of dtype (objective and measures in different float types)",
+                                                     "case": _dd[1]}, True, {"kind": "dict-dtype"})
     n = 300 if tier == "quick" else 3500
     rep.rule = ("(a) CMA-MAE GridArchive/CVTArchive(kd,brute,chunk), float32/float64, learning rates {0,1/4,1/2,3/4,1,0.1,0.3}, step-wise "
                 "simulation with objectives at/around live thresholds; (b) exact stream: learning rate 1/2, dyadic objectives, add_single "
